@@ -212,6 +212,10 @@ func runMapping(r Round) *outcome {
 			} else {
 				h.Close()
 			}
+			if mine.get() != 1 || ad.closes.get() < 1 { // Close returned => released, for every caller
+				rc.fail("C16/mapping-handler/close-returned-before-cleanup-finished",
+					fmt.Sprintf("a Close/Stop call returned with cleanup handler run=%d, adapter closed %d times", mine.get(), ad.closes.get()))
+			}
 		})
 	}
 	for _, p := range r.Paths {
